@@ -55,6 +55,29 @@ class SimLoop(asyncio.BaseEventLoop):
             raise SimStepCap(f"more than {self.step_cap} loop iterations")
         super()._run_once()
 
+    def run_in_executor(self, executor, func, *args):
+        """
+        no real threads in the simulation: the job runs as one more event of the loop, in a *fresh* contextvars
+        context - which is what a worker thread of a real executor has (run_in_executor does not copy the caller's
+        context). Deterministic, and a legitimate use of an executor neither deadlocks nor is flagged.
+        """
+        import contextvars
+
+        future = self.create_future()
+
+        def job():
+            if future.cancelled():
+                return
+            try:
+                future.set_result(func(*args))
+            except BaseException as exc:  # pylint:disable=broad-except
+                if isinstance(exc, (KeyboardInterrupt, SystemExit)):
+                    raise
+                future.set_exception(exc)
+
+        self.call_soon(job, context=contextvars.Context())
+        return future
+
     def close(self):
         if not self.is_closed():
             super().close()
